@@ -27,6 +27,8 @@ def judge(ln):
     o2 = project(outer, ax)
     area = fnorm(Vo)
     holes = []          # accepted so far (exact points)
+    area_reported = False
+    offplane = []       # accepted holes that are not clearly in the polygon's plane (threshold probes): decisions that involve them are band
     ninner = 0
     tol = 1e-3 if FMT.name == 'f32' else 1e-9
     judged = 0
@@ -42,6 +44,7 @@ def judge(ln):
             if new_n != ninner or abs(new_area - area) > tol * max(area, 1): return ('fail', 'err-changed-polygon', 'refused cut changed the polygon')
             continue
         Vh = vector_area_rel(pts)
+        this_off = True
         # classification of the candidate
         reason = None
         clear = True
@@ -49,6 +52,7 @@ def judge(ln):
         else:
             # plane: every vertex within 1e-8 of the polygon's plane and normals parallel => coplanar; any vertex > 1e-5 off => different plane
             ds = [abs(plane_dist(p, outer[0], Vo)) for p in pts]
+            this_off = max(ds) > 1e-8
             cosn = abs(float(dot(Vh, Vo))) / (fnorm(Vh) * fnorm(Vo))
             if max(ds) > 1e-5 or cosn < 1 - 1e-6: reason = 'plane'
             elif max(ds) > 1e-8 or cosn < 1 - 1e-12: clear = False
@@ -58,16 +62,22 @@ def judge(ln):
             for p, p2 in zip(pts, h2):
                 if dist2_to_outline(p, outer) < M2: clear = False; break
                 if winding2(o2, p2) == 0: reason = 'vertex-outside'; break
-                for H in holes:
+                for hi, H in enumerate(holes):
                     if dist2_to_outline(p, H) < M2: clear = False; break
-                    if winding2(project(H, ax), p2) != 0: reason = 'vertex-in-existing-hole'; break
+                    if winding2(project(H, ax), p2) != 0:
+                        if offplane[hi]: clear = False
+                        else: reason = 'vertex-in-existing-hole'
+                        break
                 if reason or not clear: break
         if reason is None and clear:
             h2 = project(pts, ax)
-            for H in holes:
+            for hi, H in enumerate(holes):
                 for p in H:
                     if dist2_to_outline(p, pts) < M2: clear = False; break
-                    if winding2(h2, proj1(p, ax)) != 0: reason = 'encloses-existing-hole'; break
+                    if winding2(h2, proj1(p, ax)) != 0:
+                        if offplane[hi]: clear = False      # the existing hole is a plane-threshold probe: band
+                        else: reason = 'encloses-existing-hole'
+                        break
                 if reason or not clear: break
         if reason is None and clear:
             # "lies inside": its edges do not cross the outline or an existing hole
@@ -81,17 +91,25 @@ def judge(ln):
         if not clear and reason is None:
             # ambiguous: follow the implementation's decision for the bookkeeping
             if cls == 'ok':
-                holes.append(pts); ninner += 1; area -= fnorm(Vh)
+                holes.append(pts); offplane.append(this_off); ninner += 1
+            area = new_area; area_reported = True
             continue
         judged += 1
         if reason is None:
             if cls != 'ok': return ('fail', 'admissible-hole-refused', 'a coplanar hole clearly inside the polygon and outside the existing holes was refused')
             ha = fnorm(Vh)
             if new_n != ninner + 1: return ('fail', 'hole-count', 'hole count %d after a successful cut, expected %d' % (new_n, ninner + 1))
-            if abs(new_area - (area - ha)) > max(tol, 1e-9) * 10 * max(area, 1): return ('fail', 'area-accounting', 'area %.12g after cutting %.12g out of %.12g' % (new_area, ha, area))
-            holes.append(pts); ninner += 1; area -= ha
+            # the areas the crate stores are those of the outlines it keeps: Loop3D drops vertices whose triangle with their
+            # neighbours is below the collinearity tolerance (|ab x bc| < 1e-5, i.e. up to 5e-6 m2 each), so the first
+            # comparison (against the exact area of the document's outline) and the hole's own area carry that allowance;
+            # after the first reported value the accounting is checked against the crate's own previous value
+            slack = 5e-6 * len(pts) + (5e-6 * len(outer) if not area_reported else 0.0)
+            if abs(new_area - (area - ha)) > max(tol, 1e-9) * 10 * max(area, 1) + slack: return ('fail', 'area-accounting', 'area %.12g after cutting %.12g out of %.12g' % (new_area, ha, area))
+            holes.append(pts); offplane.append(this_off); ninner += 1; area = new_area; area_reported = True
         else:
             if cls == 'ok': return ('fail', 'inadmissible-hole-accepted:' + reason, 'a hole that is clearly inadmissible (%s) was accepted' % reason)
-            if new_n != ninner or abs(new_area - area) > max(tol, 1e-9) * 10 * max(area, 1): return ('fail', 'err-changed-polygon', 'refused cut changed the polygon')
+            slack = 5e-6 * len(outer) if not area_reported else 0.0
+            if new_n != ninner or abs(new_area - area) > max(tol, 1e-9) * 10 * max(area, 1) + slack: return ('fail', 'err-changed-polygon', 'refused cut changed the polygon')
+            area = new_area; area_reported = True
     if judged == 0: return ('skip', 'band')
     return ('ok', '')
